@@ -349,4 +349,66 @@ theorem hasContent_matches_source (P : Par) (a : SAttr) (fl : Env) (fuel : Nat) 
   run_of_fin (X P) _ _ Gen.TransSlog.hasContent [attrV a] _ _ _ rfl rfl
     (hasContent_exec_matches_source P a (fuel + dep a + 1) fl (by omega))
 
+/-! ### `convertAttrToField` -/
+
+/-- on a RESOLVED attribute (no LogValuer layer): the empty Attr and content-less groups are `zap.Skip()`, scalars go
+    to the constructor of their kind, groups to `zap.Inline` (empty key) or `zap.Object` over their members -/
+theorem convertAttrToField_resolved_matches_source (P : Par) (a : SAttr) (h0 : lvOf a = 0) (F : Nat) (hF : dep a + 2 ≤ F)
+    (fl : Env) :
+    (exec (X P) F convertAttrToField_body ⟨[("p0", attrV a)], fl⟩).fin = some ([convV a], fl) := by
+  obtain ⟨F', rfl⟩ : ∃ F', F = F' + 1 := ⟨F - 1, by omega⟩
+  rw [exec_succ]
+  cases a with
+  | leaf k lv l =>
+    have hlv : lv = 0 := h0
+    subst hlv
+    rcases kind_ctor l.ty with ⟨hk, hc⟩ | ⟨hk, hc⟩ | ⟨hk, hc⟩ | ⟨hk, hc⟩ | ⟨hk, hc⟩ | ⟨hk, hc⟩ | ⟨hk, hc⟩ | ⟨hk, hc⟩ <;>
+      simp [convertAttrToField_body, convV, isZeroAttr, lvOf, kind0, hk, hc, keyOf, (ext_ctor2 P _ _)]
+  | nilv k lv =>
+    have hlv : lv = 0 := h0
+    subst hlv
+    by_cases hk : k = ""
+    · subst hk
+      simp [convertAttrToField_body, convV, isZeroAttr, sbytes]
+    · have hne : (sbytes k).isEmpty = false := by rw [sbytes_isEmpty]; simp [hk]
+      simp [convertAttrToField_body, convV, isZeroAttr, lvOf, kind0, hne, hk, keyOf, (ext_ctor2 P _ _)]
+  | group k lv ms =>
+    have hlv : lv = 0 := h0
+    subst hlv
+    have hcall : ∀ σ : State, retK σ [.loc "l0"] "hasContent"
+        (exec (X P) F' hasContent_body ⟨[("p0", attrV (.group k 0 ms))], fl⟩) = _ :=
+      fun σ => retK_of_fin1 σ _ _ _ _ _ (hasContent_exec_matches_source P (.group k 0 ms) F' fl (by omega))
+    by_cases hk : k = ""
+    · subst hk
+      cases hany : anyContent ms <;>
+        simp [convertAttrToField_body, convV, isZeroAttr, lvOf, kind0, hcall, Slog.hasContent, hany, keyOf, sbytes,
+          (ext_ctor2 P _ _)]
+    · have hne : ¬ (sbytes k = []) := fun h => hk ((sbytes_eq_nil k).mp h)
+      cases hany : anyContent ms <;>
+        simp [convertAttrToField_body, convV, isZeroAttr, lvOf, kind0, hcall, Slog.hasContent, hany, keyOf, hk, hne,
+          (ext_ctor2 P _ _)]
+
+/-- `convertAttrToField(attr)` on EVERY attribute: a LogValuer is resolved (all layers) and converted -/
+theorem convertAttrToField_exec_matches_source (P : Par) (a : SAttr) (F : Nat) (hF : dep a + 3 ≤ F) (fl : Env) :
+    (exec (X P) F convertAttrToField_body ⟨[("p0", attrV a)], fl⟩).fin = some ([convV a], fl) := by
+  by_cases h0 : lvOf a = 0
+  · exact convertAttrToField_resolved_matches_source P a h0 F (by omega) fl
+  · obtain ⟨F', rfl⟩ : ∃ F', F = F' + 1 := ⟨F - 1, by omega⟩
+    have hpos : (0 : Int) < (lvOf a : Int) := by omega
+    have hz : isZeroAttr a = false := by
+      cases a <;> simp_all [isZeroAttr, lvOf]
+    have hcall : ∀ σ : State, retK σ [.loc "l1"] "convertAttrToField"
+        (exec (X P) F' convertAttrToField_body ⟨[("p0", attrV (resolved a))], fl⟩) = _ :=
+      fun σ => retK_of_fin1 σ _ _ _ _ _
+        (convertAttrToField_resolved_matches_source P (resolved a) (lvOf_resolved a) F' (by rw [dep_resolved]; omega) fl)
+    have hposN : 0 < lvOf a := by omega
+    rw [exec_succ]
+    unfold convertAttrToField_body
+    simp [hz, hpos, hposN, hcall, convV_resolved]
+
+theorem convertAttrToField_matches_source (P : Par) (a : SAttr) (fl : Env) (fuel : Nat) :
+    run (X P) (fuel + dep a + 3) "convertAttrToField" [attrV a] fl = .done [convV a] fl :=
+  run_of_fin (X P) _ _ Gen.TransSlog.convertAttrToField [attrV a] _ _ _ rfl rfl
+    (convertAttrToField_exec_matches_source P a (fuel + dep a + 3) (by omega) fl)
+
 end ZapVerif.C18
